@@ -533,3 +533,9 @@ func inPkg(p *Prog, f *ssa.Function, suffix string) bool {
 	pk := p.PkgOf(f)
 	return pk != nil && pk.PkgPath == modPath+suffix
 }
+
+// inModule: f is declared in one of the repository's packages
+func inModule(p *Prog, f *ssa.Function) bool {
+	pk := p.PkgOf(f)
+	return pk != nil && (pk.PkgPath == modPath || strings.HasPrefix(pk.PkgPath, modPath+"/"))
+}
